@@ -565,6 +565,20 @@ func TestReplay(t *testing.T) {
 	if err != nil {
 		t.Fatal(err)
 	}
+	// a case of the spawn-versus-stop unit
+	if strings.Contains(string(b), "\"spawnstop\":true") {
+		var sc SpawnStopCase
+		var shr struct {
+			Case SpawnStopCase `json:"case"`
+		}
+		if json.Unmarshal(b, &shr) == nil && shr.Case.SS {
+			sc = shr.Case
+		} else if err := json.Unmarshal(b, &sc); err != nil {
+			t.Fatal(err)
+		}
+		checkSpawnStop(t, t.Fatalf, sc)
+		return
+	}
 	// a case of the remoting unit
 	var nc NetCase
 	var nhr struct {
